@@ -27,7 +27,9 @@ any_types = st.one_of(
 
 _text_alphabet = st.characters(exclude_characters=LINE_TERMINATORS, exclude_categories=("Cs",))
 
-DELIM_PAYLOADS = ("lat;lon;alt", ";", "a;;b", ";x", "55.7;12.5;3", "x;", ";;", "1;2;3;4;5;6;7")
+DELIM_PAYLOADS = ("lat;lon;alt", ";", "a;;b", ";x", "55.7;12.5;3", "x;", ";;", "1;2;3;4;5;6;7",
+                  # payloads that look like a message header themselves
+                  "12;7;1;0;3;9", "0;0;0;0;0;", "rgb 255;128;0;1;17;", "1;255;3;0;9;x", "255;255;3;0;3;", "\"quoted\";\"x\"", "\"")
 PLAIN_PAYLOADS = ("", "0", "1", "57", "20.0", "-3", " leading", "a b", "åäö", "日本", "M", "2.2.0", "abc\x00", "\x00", "\x00x", "\ufeffbom", "x\ufeff", "\ttab", "²", "a\x7f", "C:\\new\\data.txt", "\\n", "a\\nb", "\\r\\n", "\\t", "\\\\", "%0A", "&#10;", "\\u000a")
 
 
